@@ -1,0 +1,7 @@
+//go:build !verif
+
+package pmtiles
+
+// verifLoopEvent and verifCacheStat are no-ops unless the package is built with -tags verif.
+func verifLoopEvent(kind string, key cacheKey, purge string) {}
+func verifCacheStat(name string, value int)                  {}
